@@ -296,6 +296,7 @@ def main():
         distribution[st] = rep["distribution"]
         for v in rep["violations"]:
             v["stream"] = st
+            v["sdir"] = sdir
             oracle_violations.append(v)
         cov = {"stream": st, "lines": rep["lines"], "cases": rep["cases"], "model_compared": False}
         if lean_ok and rep["lines"] > 0:
@@ -320,11 +321,52 @@ def main():
     known, fixed = load_known()
     known_here = known.get(pid, {})
     new_viol = []
+    printed_known = set()
     for v in oracle_violations:
         if v["key"] in known_here:
-            print(f"KNOWN-FINDING: property={pid} {known_here[v['key']]} [{v['key']}]")
-        else:
+            # a recorded finding is one the model exhibits too: if the model answers the line on which this
+            # violation showed differently from the implementation, it is a different cause with the same symptom
+            ln = v.get("line", 0)
+            if ln and lean_ok and os.path.exists(os.path.join(v["sdir"], "model.txt")):
+                if nth_line(os.path.join(v["sdir"], "model.txt"), ln) != nth_line(os.path.join(v["sdir"], "impl.txt"), ln):
+                    v = dict(v, key=v["key"] + ":not-the-recorded-cause",
+                             what=v["what"] + " — same symptom as a recorded finding, but the model (which has the recorded defect) does not fail here")
+                    if not any(x["key"] == v["key"] for x in new_viol):
+                        new_viol.append(v)
+                    continue
+            if v["key"] not in printed_known:
+                printed_known.add(v["key"])
+                print(f"KNOWN-FINDING: property={pid} {known_here[v['key']]} [{v['key']}]")
+        elif not any(x["key"] == v["key"] for x in new_viol):
             new_viol.append(v)
+    # ---- search: an obligation or the correspondence broke but the oracle saw no violation: spend a bounded extra
+    # budget (other seeds, thorough-size generators, oracle only) looking for a concrete failing input
+    searched = 0
+    if problems and not new_viol and harness_ok and not replay_path:
+        t_search = time.time()
+        for k in range(1, 4):
+            for st in cfg["streams"]:
+                if time.time() - t_search > (240 if tier == "quick" else 900):
+                    break
+                sdir = os.path.join(wdir, st + f".search{k}")
+                os.makedirs(sdir, exist_ok=True)
+                rc, out, dt = sh([os.path.join(HARNESS, "target", "release", "vh"), st, "--tier", "thorough",
+                                  "--seed", str(seed + 7919 * k), "--out", sdir], timeout=900)
+                searched += 1
+                if rc == 0 and os.path.exists(os.path.join(sdir, "report.json")):
+                    for v in json.load(open(os.path.join(sdir, "report.json")))["violations"]:
+                        if v["key"] not in known_here and not any(x["key"] == v["key"] for x in new_viol):
+                            v["stream"] = st
+                            v["what"] += f" (found by the search: seed {seed + 7919 * k}, thorough generators)"
+                            new_viol.append(v)
+                for fn in ("ops.txt", "impl.txt"):
+                    try:
+                        os.remove(os.path.join(sdir, fn))
+                    except FileNotFoundError:
+                        pass
+            if new_viol:
+                break
+        timings["search_s"] = round(time.time() - t_search, 2)
     os.makedirs(os.path.join(VERIF, "replays"), exist_ok=True)
     exit_code = 0
     n_viol = 0
@@ -334,7 +376,7 @@ def main():
             h = hashlib.sha1(v["key"].encode()).hexdigest()[:10]
             rp = os.path.join(VERIF, "replays", f"{pid}-{h}.json")
             json.dump({"property": pid, "seed": seed, "tier": tier, "stream": v["stream"], "key": v["key"],
-                       "what": v["what"], "failing_input": v["replay"],
+                       "what": v["what"], "failing_input": v["replay"], "line": v.get("line", 0),
                        "broken_obligations": [f"{k}: {d}" for k, d in problems]}, open(rp, "w"), indent=1)
             print(f"VIOLATION property={pid} replay={rp}")
             print(f"  {v['what']}")
@@ -345,7 +387,7 @@ def main():
         rp = os.path.join(VERIF, "replays", f"{pid}-unchecked-{h}.json")
         json.dump({"property": pid, "seed": seed, "tier": tier,
                    "unchecked": [f"{k}: {d}" for k, d in problems],
-                   "failing_theorems": sorted(failing_thms),
+                   "failing_theorems": sorted(failing_thms), "search_runs": searched,
                    "note": "a proof obligation or the model/implementation correspondence no longer checks; "
                            "the search (corpus, boundary sets, seeded random budget through the implementation "
                            "oracle) found no input on which the property fails"}, open(rp, "w"), indent=1)
